@@ -18,6 +18,10 @@ def check(ctx: Ctx) -> None:
     # completeness premise: cancel_group / cancel_all find a task only through the register filed in the table under its group
     from .naming import r_register_membership
     r_register_membership(ctx, "R07.9")
+    # the member loop reads the register through its set interface
+    from . import naming as _N
+    _N.r_register_faithful(ctx, "R07.10")
+
 
 
 def r_group_table_who(ctx: Ctx, rule: str) -> None:
